@@ -21,7 +21,7 @@ RULE = ("cases from rng(seed, 3, 0, i): well-posed cluster graphs (1-4 clusters 
 REQ = ["eval:gn-step-applied", "eval:fixed-vertex-zero-increment", "eval:solver-boundary-H", "eval:solver-boundary-rhs", "class:parallel_edges", "class:edge_high_index_first",
        "class:mixed_dimensions", "class:custom_unary", "class:custom_ternary", "class:custom_numeric_jacobian", "class:fix_first_pose=True", "class:fix_first_pose=False",
        "class:several_fixed_per_cluster", "class:landmark_offset_rotated", "class:shared_pose_storage", "class:exact_special_values", "class:second_call_after_edits", "eval:second-call-equals-fresh-graph", "class:fixed_flags_as_int", "class:landmark_offset_zero_translation_rotated", "eval:K-iterations-equal-K-single-steps", "class:information_scales:per_edge",
-       "class:information_scales:all_tiny"]
+       "class:information_scales:all_tiny", "class:graph_with_100+_vertices"]
 PLAN = {
     "quick": {"cases": 1600, "soft_s": 70, "min_nontrivial": 400, "require": REQ},
     "thorough": {"cases": 60000, "soft_s": 1200, "min_nontrivial": 10000, "require": REQ},
@@ -168,12 +168,15 @@ def run_case(ctx, i, rng):
     ffp = bool(i % 2)
     big = ctx.tier == "thorough" and rng.random() < 0.3
     wide = bool(rng.random() < 0.25)
+    large = bool(rng.random() < 0.02)  # now and then a graph with a hundred or more vertices (count-dependent code paths)
+    if large:
+        ctx.count("class:graph_with_100+_vertices")
     if ffp and rng.random() < 0.5:
         k = str(rng.choice(R.KINDS))
-        spec, labels = gen.cluster_graph(rng, kinds=[k], size=(2, 12 if big else 6), fix_mode="first", alias=bool(rng.random() < 0.25), special=bool(rng.random() < 0.3), wide_info=wide)
+        spec, labels = gen.cluster_graph(rng, kinds=[k], size=((30, 60) if large else (2, 12 if big else 6)), fix_mode="first", alias=bool(rng.random() < 0.25), special=bool(rng.random() < 0.3), wide_info=wide)
         labels.add("only_first_pose_fixed")
     else:
-        spec, labels = gen.cluster_graph(rng, size=(2, 12 if big else 6), alias=bool(rng.random() < 0.25), special=bool(rng.random() < 0.3), wide_info=wide)
+        spec, labels = gen.cluster_graph(rng, size=((30, 60) if large else (2, 12 if big else 6)), alias=bool(rng.random() < 0.25), special=bool(rng.random() < 0.3), wide_info=wide)
     labels.add("fix_first_pose=%s" % ffp)
     case = {"graph": {k: v for k, v in spec.items() if k != "truth_by_id"}, "fix_first_pose": ffp}
     res = one_step_check(ctx, spec, labels, ffp, case, cond_max=(1e13 if wide else 1e10))
